@@ -426,6 +426,32 @@ Proof.
   induction tr as [|a r IH]; [reflexivity|]. cbn [map c09_shift_ok]. now rewrite c09_step_shift_ok_refl, IH.
 Qed.
 
+(* the fingerprint-level tolerance guard of the metamorphic check does not depend on the labelling:
+   it judges both runs alike *)
+Lemma near_shift tol d x r : near tol (sh16 d x) (sh16 d r) = near tol x r.
+Proof.
+  unfold near, sh16. replace (((x + d) mod M16 - (r + d) mod M16) mod M16) with ((x - r) mod M16); [reflexivity|].
+  unfold M16. lia.
+Qed.
+
+Lemma c09_step_within_tol_shift tol st :
+  c09_step_within_tol tol (shift_fstep da db dc st) = c09_step_within_tol tol st.
+Proof.
+  unfold c09_step_within_tol, shift_fstep.
+  cbn [fs_pre fs_event shift_fp f_segs f_seq_nr f_snd_una f_last_sent_seq_nr f_last_sent_ack_nr
+       f_last_consumed f_rx_len].
+  rewrite !near_shift.
+  destruct (fs_event st); try reflexivity.
+  cbn [shift_event shift_in_hdr ch_seq ch_ack]. now rewrite !near_shift.
+Qed.
+
+Lemma c09_within_tol_shift tol tr :
+  c09_within_tol tol (map (shift_fstep da db dc) tr) = c09_within_tol tol tr.
+Proof.
+  unfold c09_within_tol. induction tr as [|a r IH]; [reflexivity|].
+  cbn [map forallb]. now rewrite c09_step_within_tol_shift, IH.
+Qed.
+
 (* C09, trace-shift clause, on the model: the extracted predicate holds of the two model traces *)
 Theorem model_trace_shift_ok (s : vsock) ops : c09_guard_trace cci s ops = true ->
   c09_shift_ok da db dc (ftrace cci s ops) (ftrace cci (sh s) (map (shift_op da db) ops)) = true.
